@@ -88,6 +88,9 @@ class _Fixed:
         return Fixed()
 
 
+SPELLING = [0]
+
+
 def perform(nodes, call):
     """Execute one abstract call through the public API. Returns 'ok' or the exception class name."""
     from forml import flow
@@ -95,12 +98,25 @@ def perform(nodes, call):
     try:
         if call['op'] == 'sub':
             s, q, p, i = a
-            nodes[s - 1][q].subscribe(nodes[p - 1][i])
+            # the public spellings of one connection are equivalent: subscribe on the port proxy, subscribe on its
+            # .subscriber / to the .publisher view, publish from the output port - rotated call by call
+            SPELLING[0] += 1
+            if SPELLING[0] % 4 == 1:
+                nodes[s - 1][q].subscriber.subscribe(nodes[p - 1][i].publisher)
+            elif SPELLING[0] % 4 == 2:
+                from forml.flow._graph import port as portmod
+                nodes[p - 1][i].publish(nodes[s - 1], portmod.Apply(q))
+            elif SPELLING[0] % 4 == 3:
+                nodes[s - 1][q].subscriber.subscribe(nodes[p - 1][i])
+            else:
+                nodes[s - 1][q].subscribe(nodes[p - 1][i])
         elif call['op'] == 'train':
             w, p1, i1, p2, i2 = a
             nodes[w - 1].train(nodes[p1 - 1][i1], nodes[p2 - 1][i2])
         elif call['op'] == 'segment':
             flow.Segment(nodes[a[0] - 1])
+        elif call['op'] == 'segtail':
+            flow.Segment(nodes[a[0] - 1], nodes[a[1] - 1])
         elif call['op'] == 'compose':
             flow.Composition(_Fixed(nodes[a[0] - 1]))
         else:
@@ -144,12 +160,54 @@ def train_half_done(before, cast, call):
     return state
 
 
-def classify(cast, wire, call, got, before, after, refused=()):
+def tail_search_as_is(nodes, head, tail):
+    """What the finding explicit-tail-search-stops-at-the-tail predicts for Segment(head, tail): the depth-first search for
+    the given tail follows the subscriptions in subscription order and stops as soon as the tail is found - a cycle on a
+    branch it has not entered yet goes unnoticed.  Walks the REAL graph through its public attributes.
+    -> 'ok' | 'topo'"""
+    from forml import flow
+
+    class Cyclic(Exception):
+        pass
+
+    def mappers(node):
+        seen = []
+        subs = [s.node for port in node.output for s in port]
+        if isinstance(tail, flow.Future) and tail.subscribed(node):
+            subs.append(tail)
+        for sub in subs:
+            if any(sub is x for x in seen) or (isinstance(sub, flow.Worker) and sub.trained):
+                continue
+            seen.append(sub)
+            yield sub
+
+    def exists(node, members):
+        if node is tail:
+            return True
+        for sub in mappers(node):
+            if any(sub is m for m in members):
+                raise Cyclic()
+            if exists(sub, members + [sub]):
+                return True
+        return False
+
+    try:
+        return 'ok' if exists(head, [head]) else 'topo'
+    except Cyclic:
+        return 'topo'
+    except RecursionError:
+        return 'RecursionError'
+
+
+def classify(cast, wire, call, got, before, after, refused=(), nodes=None):
     """Input-class predicates of the known findings, decided from the abstract input (cast, declared wires, call);
     the outcome is only used to tell which of the listed failure modes was hit."""
     kinds = {i + 1: n['k'] for i, n in enumerate(cast)}
     a = call['a']
     changed = before != after
+    if call['op'] == 'segtail' and got == 'ok' and not changed and nodes is not None:
+        if tail_search_as_is(nodes, nodes[a[0] - 1], nodes[a[1] - 1]) == 'ok':
+            return 'explicit-tail-search-stops-at-the-tail'
     if call['op'] == 'sub':
         s, q, p, i = a
         if kinds[s] == 'f' and any(x[2] == s and x[3] == q and (x[0], x[1]) != (p, i) for x in wire) and got == 'ok':
@@ -231,12 +289,12 @@ def replay_state(cast, rec, index, stats, chk, sample_rate, rnd):
             elif got == 'ok' and mutating:
                 dirty = True
         if what:
-            key = f'{call["op"]}:{res}->{got}:{"changed" if after != expected else "same"}:{classify(cast, wire, call, got, expected, after)}'
+            key = f'{call["op"]}:{res}->{got}:{"changed" if after != expected else "same"}:{classify(cast, wire, call, got, expected, after, nodes=nodes)}'
             slot = chk.extra.setdefault('failure_classes', {}).setdefault(key, {'n': 0, 'first': [rec['hist'], call]})
             slot['n'] += 1
             chk.fail(f'C11 cast={[n["k"] for n in cast]} after {rec["hist"]}: {what}',
                      {'cast': cast, 'hist': rec['hist'], 'call': call, 'expected': res},
-                     finding=classify(cast, wire, call, got, expected, after))
+                     finding=classify(cast, wire, call, got, expected, after, nodes=nodes))
         else:
             stats['conform'] += 1
 
